@@ -309,7 +309,7 @@ def exec_irc(spec):
     ctor = spec['ctor']
     given = list(spec['args'])
     # WHOIS puts `server` into the command slot on the pinned tree (not asserted, see assumptions); a command is never bytes
-    as_bytes = bool(spec.get('bytes_args')) and ctor != 'WHOIS'
+    as_bytes = bool(spec.get('bytes_args')) and ctor != 'WHOIS' and not spec.get('late')
     via = spec.get('via', 'bytes')
     prefix = spec.get('prefix') if ctor == 'Message' else None
     # a list stands for the (nick, user, host) tuple parsemsg() returns, handed on as it is by relaying code: "no prefix
@@ -365,7 +365,16 @@ def exec_irc(spec):
     try:
         if ctor == 'Message':
             kw = {} if prefix is None else {'prefix': prefix_value}
-            msg = Message(command, *call_args, **kw)
+            if spec.get('late'):
+                # construct, then fill in (examples/ircd.py: reply() inserts the nick and sets the prefix of a message
+                # built earlier): what goes onto the wire is judged as before
+                classes.append('irc:filled-in-after-construction')
+                msg = Message(command)
+                msg.args.extend(a for a in given if a is not None)
+                if prefix is not None:
+                    msg.prefix = prefix_value if isinstance(prefix_value, tuple) else str(prefix_value)
+            else:
+                msg = Message(command, *call_args, **kw)
             ev = request(msg)
         else:
             fn = getattr(irc_commands, ctor, None)
@@ -562,8 +571,9 @@ def _irc_strategy(tier):
         command, prefix,
         st.one_of(st.just([]), st.tuples(final).map(list), st.tuples(middle, final).map(list),
                   st.tuples(middle, middle, final).map(list)))
-    return st.tuples(st.one_of(ctor, ctor, direct), st.sampled_from([0, 0, 0, 1]), st.sampled_from(['bytes', 'bytes', 'component'])).map(
-        lambda t: dict(t[0], bytes_args=t[1], via=t[2]))
+    return st.tuples(st.one_of(ctor, ctor, direct), st.sampled_from([0, 0, 0, 1]), st.sampled_from(['bytes', 'bytes', 'component']),
+                     st.sampled_from([0, 0, 1])).map(
+        lambda t: dict(t[0], bytes_args=t[1], via=t[2], **({'late': 1} if t[3] and t[0]['ctor'] == 'Message' else {})))
 
 
 def _all_strings(alphabet, max_len):
@@ -668,6 +678,9 @@ class C18(Prop):
             specs.append({'part': 'irc', 'ctor': 'Message', 'command': s, 'prefix': 'nick!u@h', 'args': [], 'bytes_args': 0, 'via': 'bytes'})
             specs.append({'part': 'irc', 'ctor': 'Message', 'command': 'NOTICE', 'prefix': 'srv', 'args': ['#c', s], 'bytes_args': 1, 'via': 'bytes'})
         for s in small:
+            specs.append({'part': 'irc', 'ctor': 'Message', 'command': 'PRIVMSG', 'prefix': s, 'args': ['#c', 'hello'], 'bytes_args': 0, 'via': 'bytes', 'late': 1})
+            specs.append({'part': 'irc', 'ctor': 'Message', 'command': 'PRIVMSG', 'prefix': None, 'args': [s, 'hello'], 'bytes_args': 0, 'via': 'bytes', 'late': 1})
+            specs.append({'part': 'irc', 'ctor': 'Message', 'command': 'PRIVMSG', 'prefix': 'srv', 'args': ['#c', s], 'bytes_args': 0, 'via': 'component', 'late': 1})
             for tup in ([s, 'user', 'host'], ['nick', s, 'host'], ['nick', 'user', s], [s, None, None], ['nick', s, None]):
                 specs.append({'part': 'irc', 'ctor': 'Message', 'command': 'PRIVMSG', 'prefix': tup, 'args': ['#c', 'hello'], 'bytes_args': 0, 'via': 'bytes'})
             specs.append({'part': 'irc', 'ctor': 'Message', 'command': 'PRIVMSG', 'prefix': s, 'args': ['#c', 'hello'], 'bytes_args': 0, 'via': 'component'})
